@@ -411,7 +411,15 @@ class C20(Check):
         mod = self.prog.module(ABST)
         m = mod.methods("_Settings")
         loss = m["loss"]
-        t = norm(loss)
+        lp_ = [st for st, _ in SymInterp().run_function(loss, Sym()).returns]
+
+        def ret_(st):
+            r_ = [e[1] for e in st.events if e[0] == "return"]
+            return r_[-1] if r_ else "None"
+
+        scaled_ = [ret_(st) for st in lp_ if ("self.standard_scale", True) in st.conds]
+        plain_ = [ret_(st) for st in lp_ if ("self.standard_scale", False) in st.conds]
+        t = ("return " + scaled_[0] if scaled_ and len(set(scaled_)) == 1 else "") + " | " + ("return " + plain_[0] if plain_ and len(set(plain_)) == 1 else "")
         ds = norm(m["data_scaled"].body[-1]) if "data_scaled" in m else ""
         if "return self.loss_fn(self.data_scaled, (prediction - self.mean) / self.scale)" in t and ds == "return (self.data - self.mean) / self.scale" \
                 and "return self.data.mean()" in norm(m["mean"]) and "return self.data.std()" in norm(m["scale"]):
